@@ -10,7 +10,8 @@
  *
  * Input lines:
  *   T <kernel threads>            F unix|tcp  (family of `unconn' slots)
- *   D <slot> <kind> [number]      kinds: sock piper pipew listener unconn closed never neg oor
+ *   D <slot> <kind> [number]      kinds: sock piper pipew listener unconn unconnr closed never neg oor
+ *                                 (unconnr: the address to connect to is bound but nobody listens: refused)
  *   E pw <slot> <hexbytes> | E fill <slot> | E drain <slot> | E pclose <slot> | E pconn <slot>
  *   C <op> <slot> <req> <dontwait> <hact> <hexbytes|->     (hact: pw drain pclose pconn none)
  *   X                             final checks
@@ -205,7 +206,7 @@ static void setup_slot(slot_t* s, int idx, long number) {
     mk_addr(s, AF_UNIX, idx);
     if (syscall(SYS_bind, s->fd, &s->addr, s->alen)) fatal("bind");
     if (syscall(SYS_listen, s->fd, 8)) fatal("listen");
-  } else if (!strcmp(s->kind, "unconn")) {
+  } else if (!strcmp(s->kind, "unconn") || !strcmp(s->kind, "unconnr")) {
     int fam = g_tcp ? AF_INET : AF_UNIX;
     mk_addr(s, fam, idx);
     s->hlisten = hi((int)syscall(SYS_socket, fam, SOCK_STREAM | SOCK_NONBLOCK, 0));
@@ -215,7 +216,7 @@ static void setup_slot(slot_t* s, int idx, long number) {
       socklen_t l = sizeof s->addr;
       if (syscall(SYS_getsockname, s->hlisten, &s->addr, &l)) fatal("getsockname");
     }
-    if (syscall(SYS_listen, s->hlisten, 8)) fatal("hlisten");
+    if (!strcmp(s->kind, "unconn") && syscall(SYS_listen, s->hlisten, 8)) fatal("hlisten");
     s->fd = mk_stream_socket(fam);
     if (s->fd < 0) fatal("socket");
   } else if (!strcmp(s->kind, "never")) {
@@ -530,7 +531,7 @@ static void* run_script(void* p) {
         slot_t* s = &g_s[k];
         char hx[40] = "-";
         int valid = r_fcntl(s->fd, F_GETFD, 0) != -1;
-        if (valid && (!strcmp(s->kind, "sock") || !strcmp(s->kind, "piper") || !strcmp(s->kind, "unconn"))) {
+        if (valid && s->peer >= 0 && (!strcmp(s->kind, "sock") || !strcmp(s->kind, "piper") || !strcmp(s->kind, "unconn"))) {
           unsigned char b[16];
           set_nb(s->fd, 1);
           long r = r_read(s->fd, b, sizeof b);
